@@ -1,6 +1,6 @@
 //go:build verif
 
-//verif:bounds whole-parser runs on a table of N fully symbolic payload bytes (quick 2, thorough 3) behind a valid header; templates with unconstrained holes: a Device with a dual-name path of 8 symbolic name bytes, a Field with a Connection buffer whose length prefix is symbolic, a path-declared Name followed by a Scope directive with all eight name bytes symbolic, a Method whose PkgLength cuts its name short (2 symbolic bytes), a Scope(\\_SB_) whose body is 1..2 symbolic bytes, a Buffer whose size operand is a nested Buffer with both package-length bytes drawn from a menu of 20 values (0..17, 0x41, 0xff)
+//verif:bounds whole-parser runs on a table of N fully symbolic payload bytes (quick 2, thorough 3) behind a valid header; templates with unconstrained holes: a Device with a dual-name path of 8 symbolic name bytes, a Field with a Connection buffer whose length prefix is symbolic, a path-declared Name followed by a Scope directive with all eight name bytes symbolic, a Device declared through a three-segment absolute path (middle and last segment symbolic) around a nested Device (the path may resolve into the object's own body), a Method whose PkgLength cuts its name short (2 symbolic bytes), a Scope(\\_SB_) whose body is 1..2 symbolic bytes, a Buffer whose size operand is a nested Buffer with both package-length bytes drawn from a menu of 20 values (0..17, 0x41, 0xff)
 //verif:assumes the table is a raw region of exactly header+payload bytes (any access outside it is a violation); error-message formatting (kfmt.Fprintf) is stubbed while encoding; exceeding the call-depth / instruction budget counts as non-termination
 //verif:override github.com/ProjectSerenity/firefly/kernel/kfmt.Fprintf vfNoFprintf
 package aml
@@ -164,6 +164,25 @@ func Verif_C12_tmpl_scope_resolution() {
 	copy(p, []byte{0x08, 0x5c, 0x2e})
 	copy(p[7:], []byte{'F', 'O', 'O', '0', 0x00, 0x10, 0x05})
 	for _, i := range []int{3, 4, 5, 6, 14, 15, 16, 17} {
+		c := p[i]
+		zzverif.Assume(zzverif.Or(c == '_', zzverif.And(c >= 'A', c <= 'Z')))
+	}
+	vfParse(h)
+}
+
+// A Device declared through a three-segment absolute path whose body declares another Device; the middle and last
+// segments of the path and nothing else are arbitrary, so the path may resolve into the object's own body (a path of the
+// form \\ABCD.EFGH.ABCD around Device(EFGH) would re-parent the object under its own descendant: seeded C12-w5m2):
+// 5b 82 17 5c 2f 03 ABCD <SEG1> <SEG2> | 5b 82 05 EFGH.
+//
+//verif:budget-is-violation
+//verif:depth 120
+func Verif_C12_tmpl_path_into_own_body() {
+	vfPrint = true
+	h, p := vfTable(25)
+	copy(p, []byte{0x5b, 0x82, 0x17, 0x5c, 0x2f, 0x03, 'A', 'B', 'C', 'D'})
+	copy(p[18:], []byte{0x5b, 0x82, 0x05, 'E', 'F', 'G', 'H'})
+	for i := 10; i < 18; i++ {
 		c := p[i]
 		zzverif.Assume(zzverif.Or(c == '_', zzverif.And(c >= 'A', c <= 'Z')))
 	}
